@@ -973,7 +973,10 @@ class C18(Prop):
                   "test, translate_absolute_line both passes, push/pop_control_stack, get_svalue_trace, dump_trace text, "
                   "return value and argument-line structure): compile_roundtrip (for every lexer event sequence and every "
                   "emission sequence in code order, find_line on the finished tables returns the file and line of the "
-                  "lexer position of the parse node, every offset), line_roundtrip, long_statement_ok, init_block_roundtrip, "
+                  "lexer position of the parse node, every offset) and compile_roundtrip_accepted (the same for EVERY unit "
+                  "the compiler accepts: the two size tests of epilog are transcribed, no bound on lines or code bytes is "
+                  "assumed), model_never_reuses_ids (oracle clause J5 on the model's events), file_id_scan_agrees (the scan "
+                  "of program_file_id with its transcribed start, step, sizeof divisor and cast), line_roundtrip, long_statement_ok, init_block_roundtrip, "
                   "file_roundtrip for all include layouts (repeated and recursive includes, global include), "
                   "translate_eq_positions (decoder = oracle positions on every line of every table), trace_order, "
                   "apply_frame_named, dump_trace_matches_svalue_trace; tied to the C code on every run: loop guards, "
@@ -985,9 +988,9 @@ class C18(Prop):
                   "log; the specification oracle compares every report (mapping, log text, compile-time diagnostics) with "
                   "the generator's record of where the statement is")
     level_note = ("trusted: Lean kernel; extract.py and the regex transcription in props/c18.py; the correspondence harness "
-                  "(differential, generated programs only); proved with size conditions only: absolute lines, program "
-                  "strings and code bytes < 2^16 (witness beyond 2^16 lines: open finding C18-F3; beyond 2^16 code bytes the "
-                  "compiler now refuses the program, fix C18-F6); which line the code generator attributes to a parse node "
+                  "(differential, generated programs only); the only size condition left in the top statement is "
+                  "fewer than 2^16 program strings (units with more than 65535 lines or bytes of code are refused by the "
+                  "compiler: fixes C18-F3, C18-F6, tests transcribed); which line the code generator attributes to a parse node "
                   "and the line the compiler reports a diagnostic at are compared with the generator's record, not proved; "
                   "the oracle clauses over strings (J1, J7, J8) are checked on real runs, their data-level counterparts are "
                   "proved")
@@ -1014,7 +1017,6 @@ class C18(Prop):
                    "(svalue_to_string); only which lines are printed for which frame is modelled",
                    "an error raised while the driver itself prints a trace (in_error path) and fatal(); errors inside the master's "
                    "error handler and the heart-beat switch-off are observed only (no crash, report counts)",
-                   "more than 65535 absolute lines in one compilation unit (open finding C18-F3)",
                    "the text of compile-time messages other than file and line (J8 fixes the first words only)"]
 
     LEAN_OP = {">": ">", "<": "<", ">=": "≥", "<=": "≤", "==": "=", "!=": "≠"}
